@@ -140,9 +140,11 @@ def RtL (ok : CertOracle) (g : Nat) : Prop :=
     decodeElems ok f d e vs.length (b ++ r) = some (vs, r) ∧ vs.length ≤ b.length
 
 def RtF (ok : CertOracle) (g : Nat) : Prop :=
-  ∀ (fs : Fields) (vs : List Val) (cnt : Nat) (b r : Bytes) (d f : Nat), fs.inFragment = true → encodeFields g fs vs = some (cnt, b) →
+  ∀ (fs : Fields) (vs : List Val) (cnt : Nat) (b r : Bytes) (d f : Nat), fs.inFragment = true → fs.omittables ≤ 1 →
+    encodeFields g fs vs = some (cnt, b) →
     confFields g d fs vs = true → b.length < 18446744073709551616 → 2 * b.length + 2 + fs.ptrDepth ≤ f →
-    decodeFields ok f d fs false (b ++ r) = some (vs, r) ∧ cnt = fs.slots
+    (cnt = fs.slots ∧ decodeFields ok f d fs false (b ++ r) = some (vs, r)) ∨
+    (fs.omittables = 1 ∧ cnt + 1 = fs.slots ∧ decodeFields ok f d fs true (b ++ r) = some (vs, r))
 
 theorem rtL_step (ok : CertOracle) (g : Nat) (hS : RtS ok g) (hL : RtL ok g) : RtL ok (g + 1) := by
   intro e vs b r d f he henc hconf hlen hf
@@ -170,7 +172,7 @@ theorem rtL_step (ok : CertOracle) (g : Nat) (hS : RtS ok g) (hL : RtL ok g) : R
 
 
 theorem rtF_step (ok : CertOracle) (g : Nat) (hS : RtS ok g) (hF : RtF ok g) : RtF ok (g + 1) := by
-  intro fs vs cnt b r d f hfs henc hconf hlen hf
+  intro fs vs cnt b r d f hfs hom henc hconf hlen hf
   obtain ⟨f', rfl⟩ : ∃ f', f = f' + 1 := ⟨f - 1, by omega⟩
   cases fs with
   | nil =>
@@ -178,33 +180,84 @@ theorem rtF_step (ok : CertOracle) (g : Nat) (hS : RtS ok g) (hF : RtF ok g) : R
     | nil =>
       simp [encodeFields] at henc
       obtain ⟨rfl, rfl⟩ := henc
-      simp [decodeFields, Fields.slots]
+      left; simp [decodeFields, Fields.slots]
     | cons v vs => simp [encodeFields] at henc
   | hdr fs => simp [Fields.inFragment] at hfs
   | cons s o rest =>
-    simp only [Fields.inFragment, Bool.and_eq_true, Bool.not_eq_true'] at hfs
-    obtain ⟨⟨ho, hs⟩, hrest⟩ := hfs
-    subst ho
     cases vs with
     | nil => simp [encodeFields] at henc
     | cons v vs =>
-      simp only [encodeFields, Bool.false_eq_true, false_and, if_false] at henc
-      cases h1 : encodeS g s v with
-      | none => simp [h1] at henc
-      | some a =>
-        cases h2 : encodeFields g rest vs with
-        | none => simp [h1, h2] at henc
-        | some q =>
-          obtain ⟨n, c⟩ := q
-          simp [h1, h2] at henc
-          obtain ⟨rfl, rfl⟩ := henc
-          simp only [confFields, Bool.and_eq_true] at hconf
-          simp only [List.length_append, Fields.ptrDepth] at hlen hf
-          obtain ⟨d1, l1⟩ := hS s v a (c ++ r) d f' hs h1 hconf.1 (by omega) (by omega)
-          obtain ⟨d2, l2⟩ := hF rest vs n c r d f' hrest h2 hconf.2 (by omega) (by omega)
-          refine ⟨?_, by simp [Fields.slots, l2]⟩
-          simp only [decodeFields, Bool.false_eq_true, false_and, if_false, List.append_assoc, d1, d2]
-
+      simp only [confFields, Bool.and_eq_true] at hconf
+      simp only [Fields.ptrDepth] at hf
+      cases o with
+      | false =>
+        have hfs' : s.inFragment = true ∧ rest.inFragment = true := by
+          cases s <;> simpa [Fields.inFragment] using hfs
+        have hom' : rest.omittables ≤ 1 := by simpa [Fields.omittables] using hom
+        simp only [Bool.false_eq_true, if_false, Nat.add_zero] at hf
+        simp only [encodeFields, Bool.false_eq_true, false_and, if_false] at henc
+        cases h1 : encodeS g s v with
+        | none => simp [h1] at henc
+        | some a =>
+          cases h2 : encodeFields g rest vs with
+          | none => simp [h1, h2] at henc
+          | some q =>
+            obtain ⟨n, c⟩ := q
+            simp [h1, h2] at henc
+            obtain ⟨rfl, rfl⟩ := henc
+            simp only [List.length_append] at hlen hf
+            obtain ⟨d1, l1⟩ := hS s v a (c ++ r) d f' hfs'.1 h1 hconf.1 (by omega) (by omega)
+            rcases hF rest vs n c r d f' hfs'.2 hom' h2 hconf.2 (by omega) (by omega) with ⟨l2, d2⟩ | ⟨o2, l2, d2⟩
+            · left
+              refine ⟨by simp [Fields.slots, l2], ?_⟩
+              simp only [decodeFields, Bool.false_eq_true, false_and, if_false, List.append_assoc, d1, d2]
+            · right
+              refine ⟨by simpa [Fields.omittables] using o2, by simp [Fields.slots]; omega, ?_⟩
+              simp only [decodeFields, Bool.false_eq_true, false_and, if_false, List.append_assoc, d1, d2]
+      | true =>
+        -- the one `omitempty` field: a byte slice
+        have hsb : s = .bytes ∧ rest.inFragment = true := by
+          cases s <;> simp [Fields.inFragment] at hfs ⊢
+          exact hfs
+        obtain ⟨rfl, hrest⟩ := hsb
+        have hom' : rest.omittables = 0 := by simp [Fields.omittables] at hom; omega
+        simp only [Schema.ptrDepth, if_true] at hf
+        -- the value is a byte string
+        cases g with
+        | zero => simp [conf] at hconf
+        | succ g0 =>
+        cases v <;> try (simp [conf] at hconf; done)
+        rename_i bb
+        by_cases hbe : bb.isEmpty = true
+        · -- empty: the field is left out
+          have hbn : bb = [] := by cases bb <;> simp_all
+          subst hbn
+          simp only [encodeFields, isEmptyAt, Val.isEmptyGo, List.isEmpty_nil, and_self, if_true] at henc
+          rcases hF rest vs cnt b r d f' hrest (by omega) henc hconf.2 hlen (by omega) with ⟨l2, d2⟩ | ⟨o2, _, _⟩
+          · right
+            refine ⟨by simp [Fields.omittables, hom'], by simp [Fields.slots, l2], ?_⟩
+            simp only [decodeFields, and_self, if_true, d2]
+            simp [zeroVal]
+          · omega
+        · -- present
+          have hbe' : bb.isEmpty = false := by simpa using hbe
+          simp only [encodeFields, isEmptyAt, Val.isEmptyGo, hbe', Bool.false_eq_true, and_false, if_false] at henc
+          cases h1 : encodeS (g0 + 1) .bytes (.bytes bb) with
+          | none => simp [h1] at henc
+          | some a =>
+            cases h2 : encodeFields (g0 + 1) rest vs with
+            | none => simp [h1, h2] at henc
+            | some q =>
+              obtain ⟨n, c⟩ := q
+              simp [h1, h2] at henc
+              obtain ⟨rfl, rfl⟩ := henc
+              simp only [List.length_append] at hlen hf
+              obtain ⟨d1, l1⟩ := hS .bytes (.bytes bb) a (c ++ r) d f' (by simp [Schema.inFragment]) h1 hconf.1 (by omega) (by simp [Schema.ptrDepth]; omega)
+              rcases hF rest vs n c r d f' hrest (by omega) h2 hconf.2 (by omega) (by omega) with ⟨l2, d2⟩ | ⟨o2, _, _⟩
+              · left
+                refine ⟨by simp [Fields.slots, l2], ?_⟩
+                simp only [decodeFields, Bool.false_eq_true, and_false, if_false, List.append_assoc, d1, d2]
+              · omega
 
 theorem rtS_step (ok : CertOracle) (g : Nat) (hS : RtS ok g) (hL : RtL ok g) (hF : RtF ok g) : RtS ok (g + 1) := by
   intro s v b r d f hs henc hconf hlen hf
@@ -324,13 +377,20 @@ theorem rtS_step (ok : CertOracle) (g : Nat) (hS : RtS ok g) (hL : RtL ok g) (hF
       simp only [conf, Bool.and_eq_true, decide_eq_true_eq] at hconf
       simp only [List.length_append] at hlen hf
       have hp := encHead_length_pos 4 cnt
-      obtain ⟨d1, l1⟩ := hF fs vs cnt c r (d - 1) f' hs.1 h1 hconf.2 (by omega) (by omega)
-      subst l1
-      obtain ⟨ai, hd, _⟩ := decHead_encHead28 4 fs.slots (c ++ r) (by omega) (by have := hs.2; simp [maxLen] at this; omega)
-      refine ⟨?_, by simp; omega⟩
-      simp only [decodeS, List.append_assoc, hd, d1]
-      have : ¬ (fs.slots ≥ maxLen ∨ d = 0) := by omega
-      simp [this]
+      have hsl : fs.slots < 100000 := by have := hs.2.1; simpa [maxLen] using this
+      rcases hF fs vs cnt c r (d - 1) f' hs.1 hs.2.2 h1 hconf.2 (by omega) (by omega) with ⟨l1, d1⟩ | ⟨o1, l1, d1⟩
+      · subst l1
+        obtain ⟨ai, hd, _⟩ := decHead_encHead28 4 fs.slots (c ++ r) (by omega) (by omega)
+        refine ⟨?_, by simp; omega⟩
+        simp only [decodeS, List.append_assoc, hd, d1]
+        have : ¬ (fs.slots ≥ maxLen ∨ d = 0) := by simp [maxLen]; omega
+        simp [this]
+      · obtain ⟨ai, hd, _⟩ := decHead_encHead28 4 cnt (c ++ r) (by omega) (by omega)
+        refine ⟨?_, by simp; omega⟩
+        simp only [decodeS, List.append_assoc, hd, d1]
+        have h1' : ¬ (cnt ≥ maxLen ∨ d = 0) := by simp [maxLen]; omega
+        have h2' : ¬ (cnt = fs.slots) := by omega
+        simp [h1', h2', o1, l1]
   | tagAny e =>
     simp only [Schema.ptrDepth] at hf
     simp only [Schema.inFragment] at hs
@@ -434,7 +494,7 @@ theorem rt_all (ok : CertOracle) (g : Nat) : RtS ok g ∧ RtL ok g ∧ RtF ok g 
     refine ⟨?_, ?_, ?_⟩
     · intro s v b r d f _ henc; simp [encodeS] at henc
     · intro e vs b r d f _ henc; simp [encodeList] at henc
-    · intro fs vs cnt b r d f _ henc; simp [encodeFields] at henc
+    · intro fs vs cnt b r d f _ _ henc; simp [encodeFields] at henc
   | succ g ih =>
     obtain ⟨hS, hL, hF⟩ := ih
     exact ⟨rtS_step ok g hS hL hF, rtL_step ok g hS hL, rtF_step ok g hS hF⟩
